@@ -1753,8 +1753,14 @@ func (n *node) spawnMember(factory gen.ProcessFactory, options gen.ProcessOption
 		for _, target := range linkTargets {
 			if pid, ok := target.(gen.PID); ok {
 				n.sendExitMessage(p.pid, pid, messageExit)
+				// it has been told, drop its own link to this process (LinkParent)
+				n.targetManager.RemoveLink(pid, p.pid)
 			}
 		}
+		// the list above holds what this process linked to itself (LinkChild).
+		// Children spawned with the LinkParent option only (workers of act.Pool)
+		// are the consumers of this pid
+		n.RouteTerminatePID(p.pid, err)
 
 		// terminate meta process that spawned during initialization
 
